@@ -2,6 +2,7 @@ import AFDriver.Wire
 import AFModel.FloatOps
 import AFModel.Passing
 import AFModel.WidthCfg
+import AFModel.PassRoutes
 import AFModel.Generated.C12
 
 open Lean (Json)
@@ -76,6 +77,18 @@ def handleC12Cfg (q : String) (j : Json) : Except String Json := do
         | some (a, b) => Json.arr #[hexOfFloat a, hexOfFloat b]
         | none => Json.null),
       ("ok_with_limits", resolveOk cs true pl), ("ok_no_limits", resolveOk cs false pl)])
+  | "kwargs" =>
+    let t := (← parseNode (← j.getObjVal? "comp")).node
+    let v ← vecOfJson (← j.getObjVal? "v")
+    let keys := uniquePaths t
+    let groups := allPaths t
+    pure (Json.mkObj [
+      ("keys", Json.arr (keys.map jsonOfPath).toArray),
+      ("groups", Json.arr (groups.map (fun g => Json.arr (g.map jsonOfPath).toArray)).toArray),
+      ("vector", Json.arr ((resultVector t v).map (fun o => match o with
+        | some x => Json.str (hexOfFloat x)
+        | none => Json.null)).toArray),
+      ("own", keysOwnGroups keys groups)])
   | s => throw s!"bad q {s}"
 
 def handleC12 (j : Json) : Except String Json := do
@@ -115,6 +128,12 @@ def handleC12 (j : Json) : Except String Json := do
     let pair ← e.getArr?
     if pair.size != 2 then throw "bad x pair"
     pure ((← floatOfJson pair[0]!), (← floatOfJson pair[1]!))
+  -- `Result.model` & co.: the vector goes through a path-keyed sample and back
+  let viaKwargs := (getBool j "via_kwargs").toOption.getD false
+  let recovered := resultVector t (xs.map (·.1))
+  if viaKwargs && recovered.any (·.isNone) then
+    return Json.mkObj [("key_error", true)]
+  let xs := if viaKwargs then recovered.map (fun o => (o.getD 0.0, 0.0)) else xs
   let args := match places? with
     | some pls => passArgsCfg floatPass 0.5 chain mode t olds pls xs
     | none => passArgs floatPass mode t olds cfgsGiven xs
